@@ -505,7 +505,7 @@ Proof.
 Qed.
 
 Section ValueStep.
-  Variable each : bytes -> bytes -> flatmap -> rres.
+  Variable each : bytes -> flatmap -> rres.
   Variable cont : flatmap -> bytes -> rres.
   Variable nk : bytes.
 
@@ -555,7 +555,7 @@ Section ValueStep.
 
   Lemma vs_obj m w r acc : members_ok false m = true -> all_ws w = true ->
     value_step each cont nk (render (JObj m w) ++ r) acc =
-    match each nk (render (JObj m w)) acc with ROk acc' => cont acc' r | e => e end.
+    match each (render (JObj m w)) acc with ROk acc' => cont acc' r | e => e end.
   Proof.
     intros He Hw. pose proof (block_end_obj m w r He Hw) as B. cbn [render app] in *.
     unfold value_step. change (N.eqb LBRACE QUOTE) with false. change (N.eqb LBRACE LBRACK) with false.
@@ -563,8 +563,8 @@ Section ValueStep.
   Qed.
 End ValueStep.
 
-Lemma obj_each_loop f parent X acc : (1 <= f)%nat -> skipws X <> [] ->
-  obj_each (S f) parent (LBRACE :: X) acc = obj_loop f parent (skipws X) acc.
+Lemma obj_each_loop old f parent X acc : (1 <= f)%nat -> skipws X <> [] ->
+  obj_each old (S f) parent (LBRACE :: X) acc = obj_loop old f parent (skipws X) acc.
 Proof.
   intros Hf HX. cbn [obj_each]. change (skipws (LBRACE :: X)) with (LBRACE :: X).
   change (N.eqb LBRACE LBRACE) with true. cbn [negb].
@@ -601,11 +601,11 @@ Proof.
   repeat (progress (rewrite ?app_length; cbn [length])). lia.
 Qed.
 
-Lemma loop_ok : forall fuel m parent wend tail acc,
+Lemma loop_ok old : forall fuel m parent wend tail acc,
   members_ok false m = true -> all_ws wend = true ->
   (length (render_members m ++ wend) < fuel)%nat ->
-  obj_loop fuel parent (skipws (render_members m ++ wend ++ RBRACE :: tail)) acc
-  = ROk (acc ++ leaves_m parent m).
+  obj_loop old fuel parent (skipws (render_members m ++ wend ++ RBRACE :: tail)) acc
+  = ROk (acc ++ leaves_m old parent m).
 Proof.
   induction fuel as [fuel IH] using lt_wf_ind. intros m parent wend tail acc Hm Hw Hlen.
   destruct fuel as [|f]; [lia|].
@@ -630,14 +630,14 @@ Proof.
     { unfold REST. rewrite Ev. repeat (rewrite <- ?app_assoc; cbn [app]). reflexivity. }
     rewrite Etext. rewrite skipws_ws_nonws by (assumption || reflexivity).
     cbn [obj_loop]. change (N.eqb QUOTE RBRACE) with false. change (N.eqb QUOTE QUOTE) with true. cbn [negb].
-    rewrite read_key_ok by assumption.
+    rewrite read_key_ok by assumption. cbv zeta.
     change (x :: tv ++ REST) with ((x :: tv) ++ REST). rewrite <- Ev.
     (* what follows the value *)
     assert (HREST : starts_delim REST = true).
     { unfold REST. destruct m' as [|? ? ? ? ? ? ?]; cbn [sep_members app].
       - rewrite app_assoc. apply starts_delim_ws; [rewrite all_ws_app, Hw4, Hw; reflexivity|reflexivity].
       - apply starts_delim_ws; [assumption|reflexivity]. }
-    assert (K : forall acc', after_value (obj_loop f parent) acc' REST = ROk (acc' ++ leaves_m parent m')).
+    assert (K : forall acc', after_value (obj_loop old f parent) acc' REST = ROk (acc' ++ leaves_m old parent m')).
     { intro acc'. unfold REST. destruct m' as [|w1' k' w2' w3' v' w4' m''].
       - cbn [sep_members app leaves_m]. rewrite app_assoc, av_close by (rewrite all_ws_app, Hw4, Hw; reflexivity).
         rewrite app_nil_r. reflexivity.
@@ -662,27 +662,38 @@ Proof.
       rewrite (IH f1 Hlt m2 _ w [] acc Hm2 Hwe Hb). rewrite K. rewrite <- app_assoc. reflexivity.
 Qed.
 
-Lemma obj_each_loop_ws f parent w X acc : all_ws w = true -> (1 <= f)%nat -> skipws X <> [] ->
-  obj_each (S f) parent (w ++ LBRACE :: X) acc = obj_loop f parent (skipws X) acc.
+Lemma obj_each_loop_ws old f parent w X acc : all_ws w = true -> (1 <= f)%nat -> skipws X <> [] ->
+  obj_each old (S f) parent (w ++ LBRACE :: X) acc = obj_loop old f parent (skipws X) acc.
 Proof.
-  intros Hw Hf HX. rewrite <- (obj_each_loop f parent X acc Hf HX).
+  intros Hw Hf HX. rewrite <- (obj_each_loop old f parent X acc Hf HX).
   cbn [obj_each]. rewrite skipws_ws by assumption. reflexivity.
 Qed.
 
 (** C20_read_leaf: reading the rendered text of ANY document of the subset (any whitespace, any
     text after the closing brace) yields exactly the string / number leaves with decoded names
-    and values, in document order. *)
-Theorem read_leaf : forall w m wend tail,
+    and values, in document order.  Proved for both namings. *)
+Lemma read_leaf_gen old : forall w m wend tail,
   all_ws w = true -> members_ok false m = true -> all_ws wend = true ->
-  read_json (w ++ render (JObj m wend) ++ tail) = ROk (leaves_m [] m).
+  obj_each old (S (length (w ++ render (JObj m wend) ++ tail))) [] (w ++ render (JObj m wend) ++ tail) []
+  = ROk (leaves_m old [] m).
 Proof.
-  intros w m wend tail Hw Hm Hwend. unfold read_json. cbn [render app].
+  intros w m wend tail Hw Hm Hwend. cbn [render app].
   rewrite obj_each_loop_ws; [|assumption| |].
   - rewrite <- !app_assoc. cbn [app]. rewrite loop_ok; [reflexivity|assumption|assumption|].
     repeat (progress (rewrite ?app_length; cbn [length])). lia.
   - repeat (progress (rewrite ?app_length; cbn [length])). lia.
   - rewrite <- !app_assoc. cbn [app]. rewrite app_assoc. apply skipws_brace_nonempty.
 Qed.
+
+Theorem read_leaf : forall w m wend tail,
+  all_ws w = true -> members_ok false m = true -> all_ws wend = true ->
+  read_json (w ++ render (JObj m wend) ++ tail) = ROk (doc_leaves m).
+Proof. exact (read_leaf_gen false). Qed.
+
+Theorem read_leaf_old : forall w m wend tail,
+  all_ws w = true -> members_ok false m = true -> all_ws wend = true ->
+  read_json_old (w ++ render (JObj m wend) ++ tail) = ROk (leaves_m true [] m).
+Proof. exact (read_leaf_gen true). Qed.
 
 (** * the emitter as a document *)
 
@@ -814,27 +825,16 @@ Proof.
   rewrite firstn_app_2. reflexivity.
 Qed.
 
-Definition krel (parent prefix : bytes) : Prop :=
-  (parent = [] /\ prefix = []) \/ (parent <> [] /\ prefix = parent ++ [DOT]).
-
-Lemma join_key_krel parent prefix key : krel parent prefix -> join_key parent key = prefix ++ key.
+(** the reader's prefix is the emitter's prefix: the leaves of the emitted members are exactly
+    the entries consumed, for ALL keys (empty segments included) *)
+Lemma emit_doc_leaves fm : forall fuel prefix spaces l ms rest,
+  emit_doc fm fuel prefix spaces l = Some (ms, rest) -> l = leaves_m false prefix ms ++ rest.
 Proof.
-  intros [[-> ->]|[Hne ->]]; [reflexivity|]. destruct parent; [contradiction|].
-  cbn [join_key]. rewrite <- app_assoc. reflexivity.
-Qed.
-
-Definition nodot_keys (l : flatmap) : bool := forallb (fun kv => negb (starts_dot (fst kv))) l.
-
-Lemma emit_doc_leaves fm : forall fuel prefix spaces l parent ms rest,
-  emit_doc fm fuel prefix spaces l = Some (ms, rest) -> krel parent prefix -> nodot_keys l = true ->
-  l = leaves_m parent ms ++ rest.
-Proof.
-  induction fuel as [|f IH]; intros prefix spaces l parent ms rest H R Hnd; [discriminate|].
+  induction fuel as [|f IH]; intros prefix spaces l ms rest H; [discriminate|].
   cbn [emit_doc] in H. destruct l as [|[k v] l']; [inversion H; reflexivity|].
   destruct (has_prefix k prefix) eqn:HP; cbn [negb] in H; [|inversion H; reflexivity]. cbv zeta in H.
   pose proof (has_prefix_split k prefix HP) as Ek.
   remember (skipn (length prefix) k) as diff eqn:Hdiff in *. clear Hdiff.
-  unfold nodot_keys in Hnd. cbn [forallb fst] in Hnd. apply andb_true_iff in Hnd as [Hk Hl'].
   destruct (index_of DOT diff) as [d|] eqn:Ed.
   - destruct (emit_doc fm f (firstn (length prefix + d + 1) k) (spaces ++ [32; 32]) ((k, v) :: l')) as [[pre l1]|] eqn:E1; [|discriminate].
     destruct (emit_doc fm f prefix spaces l1) as [[more l2]|] eqn:E2; [|discriminate].
@@ -843,25 +843,13 @@ Proof.
     assert (Epre : firstn (length prefix + d + 1) k = prefix ++ firstn d diff ++ [DOT]).
     { rewrite Ek at 1. eapply firstn_prefix_seg; eassumption. }
     rewrite Epre in E1.
-    set (seg := firstn d diff) in *.
-    assert (R' : krel (join_key parent seg) (prefix ++ seg ++ [DOT])).
-    { right. rewrite (join_key_krel _ _ seg R). split; [|rewrite <- app_assoc; reflexivity].
-      destruct R as [[-> ->]|[Hne ->]].
-      - (* top level: the first segment is not empty *)
-        cbn [app]. cbn [app] in Ek. subst k. unfold seg. rewrite Es in Hk.
-        destruct d as [|d]; [cbn in Hk; discriminate|].
-        destruct diff; [cbn in Hd; lia|]. cbn. discriminate.
-      - destruct parent; [contradiction|]. cbn. discriminate. }
-    assert (Hnd1 : nodot_keys ((k, v) :: l') = true) by (unfold nodot_keys; cbn [forallb fst]; rewrite Hk, Hl'; reflexivity).
-    pose proof (IH _ _ _ _ _ _ E1 R' Hnd1) as I1.
-    assert (Hnd2 : nodot_keys l1 = true).
-    { unfold nodot_keys in *. rewrite I1, forallb_app in Hnd1. apply andb_true_iff in Hnd1 as [_ X]. exact X. }
-    pose proof (IH _ _ _ _ _ _ E2 R Hnd2) as I2.
-    cbn [leaves_m leaves_v]. rewrite decode_echars. rewrite I1, I2 at 1. rewrite <- app_assoc. reflexivity.
+    pose proof (IH _ _ _ _ _ E1) as I1. pose proof (IH _ _ _ _ _ E2) as I2.
+    cbn [leaves_m leaves_v]. rewrite decode_echars. unfold key_of, child_of.
+    rewrite <- app_assoc. rewrite I1, I2 at 1. rewrite <- app_assoc. reflexivity.
   - destruct (emit_doc fm f prefix spaces l') as [[more l2]|] eqn:E2; [|discriminate].
     inversion H; subst ms rest. clear H.
-    pose proof (IH _ _ _ _ _ _ E2 R Hl') as I2.
-    cbn [leaves_m leaves_v app]. rewrite !decode_echars. rewrite (join_key_krel _ _ diff R), <- Ek.
+    pose proof (IH _ _ _ _ _ E2) as I2.
+    cbn [leaves_m leaves_v app]. rewrite !decode_echars. unfold key_of. rewrite <- Ek.
     rewrite I2 at 1. reflexivity.
 Qed.
 
@@ -955,12 +943,6 @@ Proof.
   eapply Permutation_trans; [apply insert_kv_perm|apply perm_skip; exact IH].
 Qed.
 
-Lemma nodot_keys_perm a b : Permutation a b -> nodot_keys a = true -> nodot_keys b = true.
-Proof.
-  unfold nodot_keys. intros P H. rewrite forallb_forall in *. intros x Hx. apply H.
-  eapply Permutation_in; [apply Permutation_sym; exact P|exact Hx].
-Qed.
-
 (** * the emitter's output *)
 
 Lemma emit_as_doc fm m : exists ms,
@@ -983,28 +965,27 @@ Proof.
   cbn [jv_ok]. rewrite (emit_doc_ok fm true _ _ [32; 32] _ _ _ eq_refl E). destruct fm; reflexivity.
 Qed.
 
-(** C20_write_read: for every flat map whose keys do not begin with "." and for ARBITRARY byte
-    values, reading the emitted text (compact or formatted) yields exactly the entries of the map
-    (sorted by key). *)
-Theorem write_read_sorted : forall fm m, nodot_keys m = true ->
+(** C20_write_read: for EVERY flat map (any keys - empty segments, keys that are prefixes of one
+    another - and ARBITRARY byte values), reading the emitted text (compact or formatted) yields
+    exactly the entries of the map (sorted by key). *)
+Theorem write_read_sorted : forall fm m,
   exists text, emit fm m = Some text /\ read_json text = ROk (sort_kv m).
 Proof.
-  intros fm m Hnd. destruct (emit_as_doc fm m) as (ms & E & Ht).
+  intros fm m. destruct (emit_as_doc fm m) as (ms & E & Ht).
   exists (render (JObj ms (if fm then [10] else []))). split; [exact Ht|].
-  assert (Hl : sort_kv m = leaves_m [] ms).
-  { rewrite (emit_doc_leaves fm _ _ _ _ [] _ _ E); [apply app_nil_r|left; split; reflexivity|].
-    eapply nodot_keys_perm; [apply Permutation_sym, sort_kv_perm|exact Hnd]. }
+  assert (Hl : sort_kv m = doc_leaves ms).
+  { rewrite (emit_doc_leaves fm _ _ _ _ _ _ E) at 1. apply app_nil_r. }
   rewrite Hl.
   pose proof (read_leaf [] ms (if fm then [10] else []) []) as R. cbn [app] in R. rewrite app_nil_r in R.
   apply R; [reflexivity| |destruct fm; reflexivity].
   apply (emit_doc_ok fm false _ _ [32; 32] _ _ _ eq_refl E).
 Qed.
 
-Theorem write_read : forall fm m, nodup_keys m = true -> nodot_keys m = true ->
+Theorem write_read : forall fm m, nodup_keys m = true ->
   exists text log, emit fm m = Some text /\ read_json text = ROk log /\
                    Permutation log m /\ flat_equiv log m.
 Proof.
-  intros fm m Hu Hnd. destruct (write_read_sorted fm m Hnd) as (text & He & Hr).
+  intros fm m Hu. destruct (write_read_sorted fm m) as (text & He & Hr).
   exists text, (sort_kv m). split; [exact He|]. split; [exact Hr|]. split; [apply sort_kv_perm|].
   intro k. symmetry. apply functional_perm_lookup_last; [apply nodup_functional; exact Hu|].
   apply Permutation_sym, sort_kv_perm.
@@ -1069,7 +1050,7 @@ Proof.
 Qed.
 
 Lemma value_step_nofuel each cont nk cur acc :
-  (forall blk acc', (length blk <= length cur)%nat -> each nk blk acc' <> RFuel) ->
+  (forall blk acc', (length blk <= length cur)%nat -> each blk acc' <> RFuel) ->
   (forall acc' rest, (length rest <= length cur)%nat -> cont acc' rest <> RFuel) ->
   value_step each cont nk cur acc <> RFuel.
 Proof.
@@ -1083,7 +1064,7 @@ Proof.
   destruct (N.eqb v LBRACE).
   { destruct (block_end LBRACE RBRACE (v :: t3)) as [[blk t4]|] eqn:E; [|discriminate].
     apply block_scan_length in E.
-    destruct (each nk blk acc) eqn:E2; [apply Hc; lia|discriminate|].
+    destruct (each blk acc) eqn:E2; [apply Hc; lia|discriminate|].
     exfalso. revert E2. apply He. lia. }
   destruct (token_end (v :: t3)) as [tok t4] eqn:E. apply token_end_length in E.
   destruct (N.eqb v 116 || N.eqb v 102).
@@ -1093,9 +1074,9 @@ Proof.
   destruct (is_digit_or_minus v); [apply Hc; exact E|discriminate].
 Qed.
 
-Lemma reader_nofuel : forall fuel,
-  (forall parent data acc, (length data < fuel)%nat -> obj_each fuel parent data acc <> RFuel) /\
-  (forall parent cur acc, (length cur < fuel)%nat -> obj_loop fuel parent cur acc <> RFuel).
+Lemma reader_nofuel old : forall fuel,
+  (forall parent data acc, (length data < fuel)%nat -> obj_each old fuel parent data acc <> RFuel) /\
+  (forall parent cur acc, (length cur < fuel)%nat -> obj_loop old fuel parent cur acc <> RFuel).
 Proof.
   induction fuel as [|f [IHe IHl]]; [split; intros; lia|]. split.
   - intros parent data acc Hlen. cbn [obj_each]. pose proof (skipws_length data) as L1.
@@ -1105,14 +1086,14 @@ Proof.
   - intros parent cur acc Hlen. cbn [obj_loop]. destruct cur as [|c t]; [discriminate|].
     destruct (N.eqb c RBRACE); [discriminate|]. destruct (negb (N.eqb c QUOTE)); [discriminate|].
     destruct (read_key t) as [[key cur3]|] eqn:E; [|discriminate]. apply read_key_length in E.
-    cbn [length] in Hlen. apply value_step_nofuel.
+    cbn [length] in Hlen. cbv zeta. apply value_step_nofuel.
     + intros blk acc' Hb. apply IHe. lia.
     + intros acc' rest Hr. apply after_value_nofuel. intros x acc'' Hx. apply IHl. lia.
 Qed.
 
 (** the fuel [S (length data)] supplied by [read_json] always suffices *)
 Theorem read_json_fuel : forall data, read_json data <> RFuel.
-Proof. intro data. unfold read_json. apply (proj1 (reader_nofuel (S (length data)))). lia. Qed.
+Proof. intro data. unfold read_json. apply (proj1 (reader_nofuel false (S (length data)))). lia. Qed.
 
 (** likewise the emitter: [emit] is total *)
 Theorem emit_total : forall fm m, emit fm m <> None.
